@@ -102,10 +102,22 @@ func runC05(res *hx.Result, rng *hx.Rng, tier string, outdir string) {
 	}
 	wg.Wait()
 	cs := c05cases(res, outdir, sw)
+	repaired := 0
 	for _, j := range jobs {
+		before := len(res.Failures)
 		c05evaluate(res, cs, sw, j)
+		if j.repaired != nil {
+			repaired++
+		}
+		// sources of packages that are fine (or fail in a recorded way) are not kept
+		if len(res.Failures) == before || res.Failures[len(res.Failures)-1].Known != "" {
+			os.RemoveAll(j.out.Dir)
+			os.RemoveAll(j.rout.Dir)
+		}
 	}
 	cs.Flush()
+	res.Notes = append(res.Notes, fmt.Sprintf("%d packages generated, built against %s and driven; %d of them failed at a place meeting a recorded trigger and were rebuilt with that place edited away",
+		len(jobs), env.Repo, repaired))
 }
 
 // c05evaluate: oracles, classification, evidence and correspondence cases of one package.
